@@ -8,6 +8,7 @@ package main
 import (
 	"bufio"
 	"context"
+	"encoding/hex"
 	"fmt"
 	"os"
 	"os/exec"
@@ -407,6 +408,21 @@ func runCrash(o *opts, fault bool) {
 				call = actual
 			}
 			W := pk.observe()
+			if fault && call.op != "unlink" {
+				// a command that RETURNS with an error has removed its temporary copies: whatever else
+				// sits in the cache directory afterwards is an entry under a name that is no digest
+				// (reported through spec 41). Not so when the failing call was the removal itself,
+				// and not after a kill (C03 allows temporary files there).
+				have := map[string]bool{}
+				for _, st := range S.Stray {
+					have[st] = true
+				}
+				for _, st := range W.Stray {
+					if !have[st] {
+						W.Cache = append(W.Cache, CObj{Digest: "stray-entry-" + hex.EncodeToString([]byte(st)), Data: []byte("left behind"), Mode: 0o600})
+					}
+				}
+			}
 			id++
 			specs := want(40, 41, 42, 48)
 			var R *World
@@ -463,7 +479,13 @@ func runCrash(o *opts, fault bool) {
 				if rep == 2 && pos > 0 {
 					break
 				}
-				for _, kind := range []string{"foreign-link", "fifo", "dangling-cache-link"} {
+				kinds := []string{"foreign-link", "fifo", "dangling-cache-link"}
+				if pos == 0 || pos == len(names) {
+					// names that are not valid UTF-8 cannot be recorded: a file, and a DIRECTORY of
+					// ordinary files
+					kinds = append(kinds, "invalid-utf8-file-name", "invalid-utf8-dir-name")
+				}
+				for _, kind := range kinds {
 					base := scenarioDir(o, fam, 1000+rep*100+pos*10+len(kind))
 					p := newProject(o, base, "in")
 					p.init()
@@ -484,6 +506,12 @@ func runCrash(o *opts, fault bool) {
 						bn = &Node{Kind: "lo", Data: []byte("/etc/hostname")}
 					case "fifo":
 						bn = &Node{Kind: "o"}
+					case "invalid-utf8-file-name":
+						bad += "\xff"
+						bn = nFile([]byte("named in Latin-1"))
+					case "invalid-utf8-dir-name":
+						bad += "caf\xe9"
+						bn = nDir(Ent{"ordinary.txt", nFile([]byte("inside"))})
 					default:
 						bn = &Node{Kind: "lc", Data: []byte(strings.Repeat("ab", 32))}
 					}
@@ -508,7 +536,7 @@ func runCrash(o *opts, fault bool) {
 					}
 					W := p.observe()
 					// remove the cause, retry
-					os.Remove(filepath.Join(p.Root, "data", bad))
+					os.RemoveAll(filepath.Join(p.Root, "data", bad))
 					res2 := p.dud("", args...)
 					R := p.observe()
 					// F: what an undisturbed commit of the tree without the bad entry gives
@@ -522,7 +550,13 @@ func runCrash(o *opts, fault bool) {
 					F := p2.observe()
 					id++
 					// S for the no-loss statement: the tracked files of the tree with the bad entry
-					cases = append(cases, kcaseCoq(id, S, F, W, res.Exit == 0, R, res2.Exit == 0, want(40, 41, 43, 44, 45, 46, 47)))
+					bsp := want(40, 41, 43, 44, 45, 46, 47)
+					if strings.HasPrefix(kind, "invalid-utf8") {
+						// (the entry removed before the retry held bytes of its own: their absence
+						// afterwards is the user's doing, not a loss)
+						bsp = want(40, 41, 43, 44, 45, 46)
+					}
+					cases = append(cases, kcaseCoq(id, S, F, W, res.Exit == 0, R, res2.Exit == 0, bsp))
 					s.CaseIndex[fmt.Sprint(id)] = map[string]interface{}{"scenario": "un-committable entry", "kind": kind, "position": pos, "entries": len(names), "copy": cp, "exit": res.Exit, "retry_ok": res2.Exit == 0}
 					s.count("bad-entry:" + kind)
 					distinct[fmt.Sprintf("bad-%s-%d-%d", kind, pos, rep)] = true
@@ -535,7 +569,7 @@ func runCrash(o *opts, fault bool) {
 	s.Cases = len(cases)
 	s.Nontrivial = len(distinct)
 	if fault {
-		s.Rule = "commit scenarios (file / directory, first commit / recommit over an old manifest, link / copy, rename-able / forced-copy cache, two-stage pipeline) x an injected error (EIO / ENOSPC / EACCES) at EVERY mutating system call k of the dud process, then a retry; un-committable entries (foreign link, FIFO, dangling cache link) at every position of a tree, then removal + retry; non-trivial = the disturbed state differs from both the initial and the final state; distinct by (scenario, k)"
+		s.Rule = "commit scenarios (file / directory, first commit / recommit over an old manifest, link / copy, rename-able / forced-copy cache, two-stage pipeline) x an injected error (EIO / ENOSPC / EACCES) at EVERY mutating system call k of the dud process, then a retry; un-committable entries (foreign link, FIFO, dangling cache link at every position of a tree; a file and a directory whose names are not valid UTF-8 at the first and last position), then removal + retry; non-trivial = the disturbed state differs from both the initial and the final state; distinct by (scenario, k)"
 	} else {
 		s.Rule = "scenarios (file / directory artifact, first commit / recommit over an old manifest, link / copy, rename-able / forced-copy cache, checkout link / copy / over matching links, stage add / remove, two-stage pipeline) x SIGKILL at the entry of EVERY mutating system call k of the dud process (ptrace, all threads followed); non-trivial = the state after the kill differs from both the initial and the completed state; distinct by (scenario, k)"
 	}
